@@ -20,6 +20,7 @@ pub fn respond(line: &str) -> String {
         "asm" => parse::asm(rest),
         "load" => load::load(rest),
         "build" => build::build(rest),
+        "buildrt" => build::buildrt(rest),
         "loadbin" => load::loadbin(rest),
         _ => "bad-request".to_string(),
     }
